@@ -151,9 +151,7 @@ func (s *System) Start() error {
 		verifhook.Yield("sys.guardian.wait", s)
 		<-s.options.Context.Done()
 		verifhook.Yield("sys.guardian.woken", s)
-		s.statusLock.Lock()
-		defer s.statusLock.Unlock()
-		_ = s.stop(false) // 无意义错误
+		_ = s.stop(false) // 无意义错误；stop 内部自行获取 statusLock，此处再持锁会自死锁
 	}()
 	return nil
 }
